@@ -80,9 +80,40 @@ func histKey(name string) crypto.PrivKeyEd25519 {
 		return kV3
 	case "outsider":
 		return kOutsider
+	case "node":
+		return kNode
 	}
 	core.Fatal("unknown key name %q", name)
 	return kPeer
+}
+
+// public keys, addresses and certificates of the named keys, derived once
+type histKeyInfo struct {
+	pub  crypto.PubKey
+	raw  []byte
+	addr []byte
+}
+
+var (
+	histInfoOnce sync.Once
+	histInfos    map[string]*histKeyInfo
+	histCerts    map[string]string // peer + "/" + signer
+)
+
+func histInfo(name string) *histKeyInfo {
+	histInfoOnce.Do(func() {
+		histInfos, histCerts = map[string]*histKeyInfo{}, map[string]string{}
+		for _, n := range []string{"P", "Q", "ca1", "ca2", "ca3", "v3", "outsider", "node"} {
+			k := histKey(n)
+			histInfos[n] = &histKeyInfo{pub: k.PubKey(), raw: rawPub(k), addr: k.PubKey().Address()}
+		}
+		for _, p := range histPeers {
+			for _, sg := range histSigners {
+				histCerts[p+"/"+sg] = caSignature(histKey(sg), histInfos[p].raw)
+			}
+		}
+	})
+	return histInfos[name]
 }
 
 // histModel: the reference, written from the property - who is a validator and
@@ -158,9 +189,9 @@ type admitNode struct {
 
 func newAdmitNode(nonValAuth bool) *admitNode {
 	gvs := []types.GenesisValidator{
-		{PubKey: kCA1.PubKey(), Amount: 10, IsCA: true, Name: "ca1"},
-		{PubKey: kCA2.PubKey(), Amount: 10, IsCA: true, Name: "ca2"},
-		{PubKey: kV3.PubKey(), Amount: 10, IsCA: false, Name: "v3"},
+		{PubKey: histInfo("ca1").pub, Amount: 10, IsCA: true, Name: "ca1"},
+		{PubKey: histInfo("ca2").pub, Amount: 10, IsCA: true, Name: "ca2"},
+		{PubKey: histInfo("v3").pub, Amount: 10, IsCA: false, Name: "v3"},
 	}
 	n := &admitNode{chainID: "verif-c20"}
 	genDoc := &types.GenesisDoc{GenesisTime: time.Unix(1500000000, 0), ChainID: n.chainID, Validators: gvs, Plugins: "adminOp"}
@@ -171,7 +202,7 @@ func newAdmitNode(nonValAuth bool) *admitNode {
 	n.rl = refuse_list.NewRefuseList(dbm.MemDBBackendStr, "")
 	// the wiring of gemmill/angine.go prepareP2P + assembleStateMachine
 	n.sw = p2p.NewSwitch(n.conf)
-	n.sw.SetNodeInfo(&p2p.NodeInfo{PubKey: kNode.PubKey(), Moniker: "node", Network: n.chainID, Version: "0.9.0", ListenAddr: "127.0.0.1:1"})
+	n.sw.SetNodeInfo(&p2p.NodeInfo{PubKey: histInfo("node").pub, Moniker: "node", Network: n.chainID, Version: "0.9.0", ListenAddr: "127.0.0.1:1"})
 	n.sw.SetNodePrivKey(kNode)
 	n.sw.SetAddToRefuselist(gemmill.VerifAddToRefuselist(n.rl))
 	n.sw.SetRefuseListFilter(gemmill.VerifRefuseListFilter(n.rl))
@@ -190,15 +221,15 @@ func (n *admitNode) change(op string) {
 	var attr *types.ValidatorAttr
 	switch op {
 	case "remove-ca1":
-		attr = &types.ValidatorAttr{PubKey: rawPub(kCA1), Cmd: types.ValidatorCmdRemoveNode}
+		attr = &types.ValidatorAttr{PubKey: histInfo("ca1").raw, Cmd: types.ValidatorCmdRemoveNode}
 	case "zero-power-ca1":
-		attr = &types.ValidatorAttr{PubKey: rawPub(kCA1), Cmd: types.ValidatorCmdUpdateNode, Power: 0}
+		attr = &types.ValidatorAttr{PubKey: histInfo("ca1").raw, Cmd: types.ValidatorCmdUpdateNode, Power: 0}
 	case "add-ca3":
-		attr = &types.ValidatorAttr{PubKey: rawPub(kCA3), Cmd: types.ValidatorCmdUpdateNode, Power: 10}
+		attr = &types.ValidatorAttr{PubKey: histInfo("ca3").raw, Cmd: types.ValidatorCmdUpdateNode, Power: 10}
 	case "restore-ca1":
-		attr = &types.ValidatorAttr{PubKey: rawPub(kCA1), Cmd: types.ValidatorCmdUpdateNode, Power: 10}
+		attr = &types.ValidatorAttr{PubKey: histInfo("ca1").raw, Cmd: types.ValidatorCmdUpdateNode, Power: 10}
 	case "remove-ca3":
-		attr = &types.ValidatorAttr{PubKey: rawPub(kCA3), Cmd: types.ValidatorCmdRemoveNode}
+		attr = &types.ValidatorAttr{PubKey: histInfo("ca3").raw, Cmd: types.ValidatorCmdRemoveNode}
 	default:
 		core.Fatal("unknown validator operation %q", op)
 	}
@@ -219,8 +250,7 @@ func (n *admitNode) change(op string) {
 func (n *admitNode) agrees(m *histModel) string {
 	cur := n.stateM.Validators
 	for _, name := range []string{"ca1", "ca2", "ca3", "v3"} {
-		addr := histKey(name).PubKey().Address()
-		_, v := cur.GetByAddress(addr)
+		_, v := cur.GetByAddress(histInfo(name).addr)
 		if (v != nil) != m.validator[name] {
 			return fmt.Sprintf("%s: validator=%v, reference says %v", name, v != nil, m.validator[name])
 		}
@@ -229,7 +259,7 @@ func (n *admitNode) agrees(m *histModel) string {
 		}
 	}
 	for _, name := range histPeers {
-		if cur.HasAddress(histKey(name).PubKey().Address()) {
+		if cur.HasAddress(histInfo(name).addr) {
 			return name + " is a validator"
 		}
 	}
@@ -237,13 +267,13 @@ func (n *admitNode) agrees(m *histModel) string {
 }
 
 func histNodeInfo(peer, cert string) *p2p.NodeInfo {
-	pk := histKey(peer)
+	info := histInfo(peer)
 	addr := "127.0.0.1:2"
 	if peer == "Q" {
 		addr = "127.0.0.1:3"
 	}
-	return &p2p.NodeInfo{PubKey: pk.PubKey(), Moniker: "dialer-" + peer, Network: "verif-c20", Version: "0.9.0", ListenAddr: addr,
-		SigndPubKey: caSignature(histKey(cert), rawPub(pk))}
+	return &p2p.NodeInfo{PubKey: info.pub, Moniker: "dialer-" + peer, Network: "verif-c20", Version: "0.9.0", ListenAddr: addr,
+		SigndPubKey: histCerts[peer+"/"+cert]}
 }
 
 // attempt: one admission attempt. admitted / timeout / panic.
